@@ -44,7 +44,7 @@ mut("throttle-count-after-handover", ["C07"], "throttle.py",
     "            # While not actually running yet, we've committed to running it, so...\n            executor._running_count.incr()\n",
     "",
     "in-flight counter not incremented before hand-over (over-admission)")
-mut("retry-shutdown-no-join", ["C11", "C12"], "retry.py",
+mut("retry-shutdown-no-join", ["C11"], "retry.py",
     "                self._submit_thread.join(MAX_TIMEOUT)\n", "                pass\n", "shutdown(wait=True) does not join the submit thread")
 mut("gate-ignores-flag", ["C11"], "helpers.py",
     "            if self.is_shutdown:\n                raise RuntimeError(\"cannot schedule new futures after shutdown\")\n            yield\n",
